@@ -204,6 +204,9 @@ def factors(engine, rng, n_random_shapes):
     f['catchall'] = [False, True]
     f['probe'] = ['basic', 'basic', 'union']
     f['mid'] = [0, 1]
+    f['history'] = ['none', 'none', 'nested_dump', 'nested_load', 'other_root_dump', 'other_root_load']
+    f['other'] = ['nometa', 'opposite', 'same']
+    f['doc_type'] = ['dict', 'OrderedDict', 'defaultdict', 'subclass']
     f['shape'] = list(range(len(shapes)))
     return f, shapes
 
@@ -269,9 +272,6 @@ def mk_config(engine, f, shapes, row, rng, bvals):
         if lv['keymap'][1]:
             nested['v1_field_to_alias'] = {'my_val': 'nk'}
     shape = list(shapes[lv['shape']])
-    if engine == 'v1load':
-        # open finding F18 (C02): v1 drops the parent index for a fixed-arity tuple directly inside a fixed-arity tuple
-        shape = ['vtuple' if (h == 'tuple' and i and shape[i - 1] == 'tuple') else h for i, h in enumerate(shape)]
     probe = lv['probe']
     if 'union' in shape:           # C13 domain: the member is tagged and reads/writes the same tag key as the Union
         nested['tag'] = 'NT'
@@ -303,7 +303,24 @@ def mk_config(engine, f, shapes, row, rng, bvals):
     if engine == 'dump' and any('skip_defaults_if' in (m or {}) for m in (cfg['root'], cfg['nested'], cfg['mid'])):
         # noticed, not C12: a CatchAll field with a default under Meta.skip_defaults_if dumps with NameError `_default_i`
         cfg['catchall'] = False
+    cfg['history'] = lv['history']
+    if lv['history'].startswith('other_root'):
+        if lv['other'] == 'nometa' and engine != 'v1load':
+            cfg['other'] = None
+        elif lv['other'] == 'same':
+            cfg['other'] = dict(cfg['root']) if cfg['root'] is not None else None
+        else:
+            other = {}
+            for s, vals in ENGINE_SETTINGS[engine].items():
+                if s == 'auto_assign_tags' and probe != 'union':
+                    continue
+                vals = bvals.get(s, vals)
+                other[s] = vals[1] if (cfg['root'] or {}).get(s, vals[0]) == vals[0] else vals[0]
+            if engine == 'v1load':
+                other['v1'] = True
+            cfg['other'] = other
     if engine != 'dump':
+        cfg['doc_type'] = lv['doc_type']
         cfg['docs'] = probe_docs(cfg)
     return cfg
 
